@@ -540,7 +540,9 @@ func c18ConfiguredExec(ctx *Ctx, dir string) {
 		_ = os.Setenv("PATH", oldPath)
 		configuration.CurrentConfig = saved
 	}()
-	forms := []string{"./run.sh", "sub/../run.sh", "bin/run.sh", "<abs>"}
+	// "run.sh": a bare name, with a file of that name in the working directory; "<only-in-PATH>": a bare name that exists
+	// in a PATH directory only (there it is the other user's, world-writable file)
+	forms := []string{"./run.sh", "sub/../run.sh", "bin/run.sh", "<abs>", "run.sh", "<only-in-PATH>"}
 	for i, form := range forms {
 		for _, configuredIsPermitted := range []bool{true, false} {
 			base := filepath.Join(dir, fmt.Sprintf("cfgexec-%d-%v", i, configuredIsPermitted))
@@ -562,6 +564,13 @@ func c18ConfiguredExec(ctx *Ctx, dir string) {
 			exe := form
 			if form == "<abs>" {
 				exe = real
+			}
+			if form == "<only-in-PATH>" {
+				if !configuredIsPermitted {
+					continue
+				}
+				exe = "run.sh"
+				_ = os.Remove(real)
 			}
 			fanFile := filepath.Join(base, "fan")
 			_ = os.WriteFile(fanFile, []byte("100\n"), 0644)
@@ -608,6 +617,10 @@ func c18ConfiguredExec(ctx *Ctx, dir string) {
 				ctx.Violation("configured-exec:documented-entry-not-loaded:"+form, desc, desc)
 			case ran == "decoy":
 				ctx.Violation("configured-exec:a-different-file-was-run:"+form, desc, desc)
+			case form == "<only-in-PATH>" && (ran != "" || gerr == nil):
+				ctx.Violation("configured-exec:file-from-PATH-run-without-the-test:"+form, desc, desc)
+			case form == "<only-in-PATH>":
+				ctx.Nontrivial("configured-exec:only-in-PATH")
 			case !configuredIsPermitted && (ran != "" || gerr == nil):
 				ctx.Violation("configured-exec:executed-although-not-permitted:"+form, desc, desc)
 			case configuredIsPermitted && (ran != "configured" || gerr != nil):
